@@ -620,7 +620,13 @@ type cloner struct {
 
 var plainCache sync.Map // reflect.Type -> bool : value copy is already a deep copy
 
-func isPlain(t reflect.Type) bool {
+func isPlain(t reflect.Type) bool { return isPlainRec(t, nil) }
+
+// isPlainRec computes whether a value copy of t is already a deep copy. Only FINAL results are published in
+// plainCache; the guard against recursive types is local to the call (an earlier version stored a provisional
+// "true" in the shared cache, which a concurrent first use of the same type could read: the clone then shared
+// slices with the original for one run in a few — a cold-start race in the harness, see DESIGN.md 9.4).
+func isPlainRec(t reflect.Type, visiting map[reflect.Type]bool) bool {
 	if p, ok := plainCache.Load(t); ok {
 		return p.(bool)
 	}
@@ -629,16 +635,23 @@ func isPlain(t reflect.Type) bool {
 	case reflect.Pointer, reflect.Slice, reflect.Map, reflect.Interface, reflect.Chan, reflect.Func, reflect.UnsafePointer:
 		r = false
 	case reflect.Array:
-		r = isPlain(t.Elem())
+		r = isPlainRec(t.Elem(), visiting)
 	case reflect.Struct:
+		if visiting[t] {
+			return true // a struct cannot contain itself by value; the outer call decides
+		}
+		if visiting == nil {
+			visiting = map[reflect.Type]bool{}
+		}
+		visiting[t] = true
 		r = true
-		plainCache.Store(t, true) // recursion guard (a struct cannot contain itself by value)
 		for i := 0; i < t.NumField(); i++ {
-			if !isPlain(t.Field(i).Type) {
+			if !isPlainRec(t.Field(i).Type, visiting) {
 				r = false
 				break
 			}
 		}
+		delete(visiting, t)
 	default:
 		r = true
 	}
